@@ -59,6 +59,14 @@ CpLenFrom(s, i) == IF i > Len(s) THEN 0
                    ELSE 1 + CpLenFrom(s, i + 1)
 CpLen(s) == CpLenFrom(s, 1)
 
+RECURSIVE SplitAt(_, _, _, _)
+(* split s on character c: returns sequence of pieces *)
+SplitAt(s, c, i, start) ==
+  IF i > Len(s) THEN <<SubSeq(s, start, Len(s))>>
+  ELSE IF Ch(s, i) = c THEN <<SubSeq(s, start, i - 1)>> \o SplitAt(s, c, i + 1, i + 1)
+  ELSE SplitAt(s, c, i + 1, start)
+Split(s, c) == SplitAt(s, c, 1, 1)
+
 (* records read from JSON omit absent keys *)
 Get(r, k, d) == IF k \in DOMAIN r THEN r[k] ELSE d
 Has(r, k) == k \in DOMAIN r
